@@ -24,6 +24,10 @@ Section Unfold.
     | a :: t => fmt F a (item_ctx F k, pos, false) ++ sep_of k i :: fmt_items k pos t (S i)
     end.
 
+  (* the parameters of a lambda that carry a default value: `k:d`, written at context c *)
+  Definition fmt_defaults (c : N) (unb : bool) (ds : list expr) : list tok :=
+    flat_map (fun d => match d with ENamed k x => TNamed k :: fmt F x (c, PUnspec, unb) | _ => [] end) ds.
+
   (* `start.kind` *)
   Definition kind_of (e : expr) : expr := match e with EAlias _ k => k | _ => e end.
 
@@ -56,6 +60,9 @@ Section Unfold.
     | ECall f args =>
         fmt F f (N.max (no_alias F f ctx) (bs_call F), PUnspec, unb) ++ fmt_args (N.max ctx (bs_call F)) PUnspec args
     | EGroup k es => TOpen k :: fmt_items k PUnspec es O ++ [TClose k]
+    | EFunc ps ds b =>
+        TFunc :: map (fun p => TA (APar p)) ps ++ fmt_defaults (N.max ctx (default_ctx F)) unb ds ++
+        TThin :: fmt F b (N.max ctx (body_ctx F), PUnspec, unb)
     | EAlias _ _ | ENamed _ _ => []
     end.
 
@@ -74,7 +81,7 @@ Section Unfold.
     end.
   Proof.
     destruct st as [[ctx pos] unb].
-    destruct e as [a|o l r|u x|l r|l|r| |f args|k es|n x|n x]; cbn [fmt kind_fmt inner_state]; try reflexivity;
+    destruct e as [a|o l r|u x|l r|l|r| |f args|k es|n x|n x|ps ds b]; cbn [fmt kind_fmt inner_state]; try reflexivity;
       try (destruct (needs F (ctx, pos, unb) _); reflexivity).
     - (* EGroup *)
       assert (G : forall l i,
@@ -124,6 +131,14 @@ Section RoundTrip.
     H_alias_no : (alias_ctx F < noalias_ctx F)%N;
     (* ... and stays bare as a positional argument *)
     H_alias_call : (bs_call F <= alias_ctx F)%N;
+    (* a lambda is weaker than a call, hence parenthesised as operand, bound, argument and callee; it is parenthesised
+       as case branch and as lambda body; calls, lambdas and aliased expressions are parenthesised as default values *)
+    H_func_pos : (0 < bs_func F)%N;
+    H_func_call : (bs_func F < bs_call F)%N;
+    H_func_case : (bs_func F < case_ctx F)%N;
+    H_func_body : (bs_func F < body_ctx F)%N;
+    H_call_default : (bs_call F <= default_ctx F)%N;
+    H_alias_default : (alias_ctx F < default_ctx F)%N;
   }.
   Hypothesis C : compat_facts.
 
@@ -133,15 +148,17 @@ Section RoundTrip.
     (forall a, P (EAtom a)) -> (forall o l r, P l -> P r -> P (EBin o l r)) -> (forall u x, P x -> P (EUn u x)) ->
     (forall l r, P l -> P r -> P (ERng l r)) -> (forall l, P l -> P (ERngL l)) -> (forall r, P r -> P (ERngR r)) -> P ERng0 ->
     (forall f args, P f -> Forall P args -> P (ECall f args)) -> (forall k es, Forall P es -> P (EGroup k es)) ->
-    (forall n x, P x -> P (EAlias n x)) -> (forall n x, P x -> P (ENamed n x)) -> forall e, P e.
+    (forall n x, P x -> P (EAlias n x)) -> (forall n x, P x -> P (ENamed n x)) ->
+    (forall ps ds b, Forall P ds -> P b -> P (EFunc ps ds b)) -> forall e, P e.
   Proof.
-    intros HA HB HU HR HRL HRR HR0 HC HG HAl HN. fix IH 1.
-    intros [a|o l r|u x|l r|l|r| |f args|k es|n x|n x].
+    intros HA HB HU HR HRL HRR HR0 HC HG HAl HN HF. fix IH 1.
+    intros [a|o l r|u x|l r|l|r| |f args|k es|n x|n x|ps ds b].
     - apply HA. - apply HB; apply IH. - apply HU; apply IH. - apply HR; apply IH. - apply HRL; apply IH.
     - apply HRR; apply IH. - apply HR0.
     - apply HC; [apply IH|]. induction args as [|a t IHt]; constructor; [apply IH | exact IHt].
     - apply HG. induction es as [|a t IHt]; constructor; [apply IH | exact IHt].
     - apply HAl; apply IH. - apply HN; apply IH.
+    - apply HF; [|apply IH]. induction ds as [|a t IHt]; constructor; [apply IH | exact IHt].
   Qed.
 
   Lemma go_forall (p : expr -> bool) l :
@@ -201,13 +218,13 @@ Section RoundTrip.
   Proof.
     intros st. unfold range_start. fold st.
     destruct (ends_close (fmt F l st)) eqn:EC; [left; reflexivity|].
-    destruct l as [a|o l1 r1|u x|l1 r1|l1|r1| |f args|k es|n x|n x]; cbn [kind_of]; try (left; reflexivity).
+    destruct l as [a|o l1 r1|u x|l1 r1|l1|r1| |f args|k es|n x|n x|ps ds b]; cbn [kind_of]; try (left; reflexivity).
     - destruct a; try (left; reflexivity). right; left. eexists; split; reflexivity.
     - destruct (is_param (kind_of x)) eqn:EP; [|left; reflexivity].
       assert (EN : needs F st (EUn u x) = false).
       { destruct (needs F st (EUn u x)) eqn:EN; [|reflexivity]. rewrite fmt_eq, EN in EC. cbn [wrap] in EC.
         rewrite ends_close_cons_snoc in EC. discriminate EC. }
-      destruct x as [a|o2 l2 r2|u2 x2|l2 r2|l2|r2| |f2 args2|k2 es2|n2 x2|n2 x2]; cbn [kind_of is_param] in EP; try discriminate EP.
+      destruct x as [a|o2 l2 r2|u2 x2|l2 r2|l2|r2| |f2 args2|k2 es2|n2 x2|n2 x2|ps ds b]; cbn [kind_of is_param] in EP; try discriminate EP.
       + destruct a; try discriminate EP. right; right. exists u, s. split; [reflexivity|]. split; [exact EN | reflexivity].
       + exfalso. rewrite fmt_eq, EN in EC. unfold st in EC. cbn [wrap inner_state kind_fmt] in EC.
         rewrite fmt_alias_hi in EC by (pose proof (H_alias_un C); lia).
@@ -259,16 +276,26 @@ Section RoundTrip.
   Lemma wrap_head w ts : w = true -> exists ts', wrap w ts = TOpen GPipe :: ts'.
   Proof. intros ->. cbn [wrap]. eexists; reflexivity. Qed.
 
+  Definition is_func (e : expr) : bool := match e with EFunc _ _ _ => true | _ => false end.
+
+  (* a lambda is parenthesised wherever a call would be *)
+  Lemma func_wrapped ctx pos unb e : (bs_call F <= ctx)%N -> is_func e = true -> needs F (ctx, pos, unb) e = true.
+  Proof.
+    intros Hle Hf. destruct e; try discriminate Hf. unfold needs. cbn [strength].
+    pose proof (H_func_call C). destruct (N.ltb_spec (bs_func F) ctx); [rewrite orb_true_r; reflexivity | lia].
+  Qed.
+
   (* the first token of the start of a range, given the first token of the start expression itself *)
   Lemma range_head l ctx unb (dummy : expr) :
     (operand l = true -> wf l = true -> ops_ok l = true ->
-       forall st, okst l st -> exists t ts, fmt F l st = t :: ts /\ head_ok (snd st) t) ->
+       forall st, okst l st -> (is_func l = true -> needs F st l = true) -> exists t ts, fmt F l st = t :: ts /\ head_ok (snd st) t) ->
     operand l = true -> wf l = true -> ops_ok l = true ->
     forall X, exists t ts, range_start F l ctx unb ++ X = t :: ts /\ head_ok unb t.
   Proof.
     intros IHl Hp Hw Ho X.
     destruct (range_start_cases l ctx unb) as [E|[[s [-> E]]|[u [p [-> [EN E]]]]]]; rewrite E.
-    - destruct (IHl Hp Hw Ho (N.max ctx (bs_rng F), PUnspec, unb) ltac:(apply okst_lt; pose proof (H_alias_rng C); lia)) as [t [ts [E2 Hh]]].
+    - destruct (IHl Hp Hw Ho (N.max ctx (bs_rng F), PUnspec, unb) ltac:(apply okst_lt; pose proof (H_alias_rng C); lia)
+                  ltac:(apply func_wrapped; pose proof (H_call_rng C); lia)) as [t [ts [E2 Hh]]].
       rewrite E2. cbn [app]. eexists _, _; split; [reflexivity | exact Hh].
     - cbn [app]. eexists _, _; split; [reflexivity | exact I].
     - cbn [app]. eexists _, _; split; [reflexivity|]. cbn [head_ok].
@@ -279,19 +306,24 @@ Section RoundTrip.
         apply (H_cbl C u Hu EN).
   Qed.
 
+  (* a lambda that is not parenthesised begins with `func`: excluded here, see fmt_head' *)
   Lemma fmt_head e : operand e = true -> wf e = true -> ops_ok e = true ->
-    forall st, okst e st -> exists t ts, fmt F e st = t :: ts /\ head_ok (snd st) t.
+    forall st, okst e st -> (is_func e = true -> needs F st e = true) -> exists t ts, fmt F e st = t :: ts /\ head_ok (snd st) t.
   Proof.
-    induction e as [a|o l r IHl IHr|u x IHx|l r IHl IHr|l IHl|r IHr| |f args IHf IHargs|k es IHes|n x IHx|n x IHx] using expr_ind2;
-      intros Hp Hw Ho [[ctx pos] unb] Hok; try discriminate Hp.
+    induction e as [a|o l r IHl IHr|u x IHx|l r IHl IHr|l IHl|r IHr| |f args IHf IHargs|k es IHes|n x IHx|n x IHx|ps ds b IHds IHb] using expr_ind2;
+      intros Hp Hw Ho [[ctx pos] unb] Hok Hfn; try discriminate Hp.
     10: { (* alias, in parentheses *)
       rewrite fmt_alias_hi by (apply Hok; reflexivity). eexists _, _; split; [reflexivity | exact I]. }
+    10: { (* lambda, in parentheses *)
+      rewrite fmt_eq, (Hfn eq_refl). cbn [wrap]. eexists _, _; split; [reflexivity | exact I]. }
     all: rewrite fmt_eq;
       (destruct (needs F _ _) eqn:EN; [cbn [wrap]; eexists _, _; split; [reflexivity | exact I] | ]);
       cbn [wrap inner_state kind_fmt snd]; cbn [wf ops_ok] in Hw, Ho; bsplit.
     - eexists _, _; split; [reflexivity | exact I].
     - pose proof (H_alias_bin C o ltac:(apply Nat.ltb_lt; assumption)) as Hab.
-      destruct (IHl ltac:(assumption) ltac:(assumption) ltac:(assumption) (N.max ctx (bs o), PLeft, unb) ltac:(apply okst_lt; lia)) as [t [ts [E Hh]]].
+      pose proof (H_call_bin C o ltac:(apply Nat.ltb_lt; assumption)) as Hcb.
+      destruct (IHl ltac:(assumption) ltac:(assumption) ltac:(assumption) (N.max ctx (bs o), PLeft, unb) ltac:(apply okst_lt; lia)
+                  ltac:(apply func_wrapped; lia)) as [t [ts [E Hh]]].
       rewrite E. cbn [app]. eexists _, _; split; [reflexivity | exact Hh].
     - match goal with H : (u <? nu) = true |- _ => apply Nat.ltb_lt in H; rename H into Hu end.
       eexists _, _; split; [reflexivity|]. cbn [head_ok]. split.
@@ -303,9 +335,24 @@ Section RoundTrip.
     - apply (range_head l ctx unb l IHl); assumption.
     - eexists _, _; split; [reflexivity | reflexivity].
     - eexists _, _; split; [reflexivity | reflexivity].
-    - destruct (IHf ltac:(assumption) ltac:(assumption) ltac:(assumption) (N.max (no_alias F f ctx) (bs_call F), PUnspec, unb) (no_alias_ok f ctx PUnspec unb)) as [t [ts [E Hh]]].
+    - destruct (IHf ltac:(assumption) ltac:(assumption) ltac:(assumption) (N.max (no_alias F f ctx) (bs_call F), PUnspec, unb) (no_alias_ok f ctx PUnspec unb)
+                  ltac:(apply func_wrapped; lia)) as [t [ts [E Hh]]].
       rewrite E. cbn [app]. eexists _, _; split; [reflexivity | exact Hh].
     - eexists _, _; split; [reflexivity | exact I].
+  Qed.
+
+  (* ... and in general: the first token is a good head or `func` *)
+  Definition head_ok' (unb : bool) (t : tok) : Prop := head_ok unb t \/ t = TFunc.
+  Lemma fmt_head' e : operand e = true -> wf e = true -> ops_ok e = true ->
+    forall st, okst e st -> exists t ts, fmt F e st = t :: ts /\ head_ok' (snd st) t.
+  Proof.
+    intros Hp Hw Ho st Hok. destruct (is_func e && negb (needs F st e)) eqn:B.
+    - apply andb_true_iff in B as [Hf Hn]. apply negb_true_iff in Hn. destruct e; try discriminate Hf.
+      rewrite fmt_eq, Hn. destruct st as [[ctx pos] unb]. cbn [wrap kind_fmt inner_state].
+      eexists _, _; split; [reflexivity | right; reflexivity].
+    - destruct (fmt_head e Hp Hw Ho st Hok) as [t [ts [E Hh]]].
+      { intro Hf. rewrite Hf in B. cbn [andb] in B. apply negb_false_iff in B. exact B. }
+      exists t, ts. split; [exact E | left; exact Hh].
   Qed.
 
   (* ---------------- kinds, stop conditions *)
@@ -314,6 +361,8 @@ Section RoundTrip.
   Definition is_rng (e : expr) : bool := match e with ERng _ _ | ERngL _ | ERngR _ | ERng0 => true | _ => false end.
   Definition is_bin (e : expr) : bool := match e with EBin _ _ _ => true | _ => false end.
   Definition is_call (e : expr) : bool := match e with ECall _ _ => true | _ => false end.
+  (* weaker than every operator: a call or a lambda is an operand only in parentheses *)
+  Definition is_low (e : expr) : bool := match e with ECall _ _ | EFunc _ _ _ => true | _ => false end.
 
   (* `rest` begins with something that ends every expression: a closer, a separator, or nothing *)
   Definition closes (rest : list tok) : Prop :=
@@ -356,6 +405,10 @@ Section RoundTrip.
   Proof. intros L. apply (le_args _ _ (par_le T _ _ L)). Qed.
   Lemma up_items f g k ts r : f <= g -> q_items (par T f) k ts = Some r -> q_items (par T g) k ts = Some r.
   Proof. intros L. apply (le_items _ _ (par_le T _ _ L)). Qed.
+  Lemma up_params f g ts r : f <= g -> q_params (par T f) ts = Some r -> q_params (par T g) ts = Some r.
+  Proof. intros L. apply (le_params _ _ (par_le T _ _ L)). Qed.
+  Lemma up_lc f g ts r : f <= g -> p_lc (par T f) ts = Some r -> p_lc (par T g) ts = Some r.
+  Proof. intros L. apply (p_lc_mono _ _ (par_le T _ _ L)). Qed.
   Lemma up_unary f g ts r : f <= g -> p_unary T (par T f) ts = Some r -> p_unary T (par T g) ts = Some r.
   Proof. intros L. apply (p_unary_mono T _ _ (par_le T _ _ L)). Qed.
   Lemma up_range f g ts r : f <= g -> p_range T (par T f) ts = Some r -> p_range T (par T g) ts = Some r.
@@ -364,7 +417,7 @@ Section RoundTrip.
   (* the operator loop stops at `rest` *)
   Lemma loop_stop f p e rest : stop (Some p) rest -> q_loop (par T (S f)) p e rest = Some (e, rest).
   Proof.
-    intros [_ H]. cbn [par step q_loop]. destruct rest as [|[a|s un|bl br|k|k| | | |n|n] r]; try reflexivity.
+    intros [_ H]. cbn [par step q_loop]. destruct rest as [|[a|s un|bl br|k|k| | | |n|n| | ] r]; try reflexivity.
     destruct (bin_of_sym T s) as [o'|]; [|reflexivity]. destruct H as [_ H].
     destruct (Nat.leb_spec p (lbp T o')); [lia | reflexivity].
   Qed.
@@ -384,7 +437,9 @@ Section RoundTrip.
         q_loop (par T f) minp e rest = Some k ->
         exists g, q_bin (par T g) minp (kind_fmt F e (ctx, pos, unb) ++ rest) = Some k) /\
     (is_call e = true -> forall rest, closes rest ->
-        exists g, q_call (par T g) (kind_fmt F e (ctx, pos, unb) ++ rest) = Some (e, rest)).
+        exists g, q_call (par T g) (kind_fmt F e (ctx, pos, unb) ++ rest) = Some (e, rest)) /\
+    (is_func e = true -> forall rest, closes rest ->
+        exists g, p_lc (par T g) (kind_fmt F e (ctx, pos, unb) ++ rest) = Some (e, rest)).
 
   (* what a parent uses about a child printed by `fmt` (with or without parentheses) *)
   Definition good (e : expr) : Prop :=
@@ -393,20 +448,29 @@ Section RoundTrip.
     (wrapped st e = true \/ is_term e = true \/ is_un e = true ->
        forall rest, exists g, p_unary T (par T g) (fmt F e st ++ rest) = Some (e, rest)) /\
     (forall minp rest k f,
-        (wrapped st e = false -> is_call e = false) ->
+        (wrapped st e = false -> is_low e = false) ->
         (wrapped st e = false -> forall o l r, e = EBin o l r -> minp <= lbp T o) ->
         stop (edge st e) rest -> q_loop (par T f) minp e rest = Some k ->
         exists g, q_bin (par T g) minp (fmt F e st ++ rest) = Some k) /\
-    (* func_call returns `name.kind` when there are no arguments: the alias of a parenthesised `(x = a)` is lost *)
-    (is_alias e = false -> forall rest, closes rest -> exists g, q_call (par T g) (fmt F e st ++ rest) = Some (e, rest)).
+    (* at the head of a list element (nested_expr = lambda_func | func_call).  func_call returns `name.kind` when there
+       are no arguments: the alias of a parenthesised `(x = a)` is lost *)
+    (is_alias e = false -> forall rest, closes rest -> exists g, p_lc (par T g) (fmt F e st ++ rest) = Some (e, rest)).
+
+  (* where a lambda is in parentheses the head of a list element is a func_call *)
+  Lemma lc_call e st rest P : operand e = true -> wf e = true -> ops_ok e = true -> okst e st ->
+    (is_func e = true -> needs F st e = true) -> p_lc P (fmt F e st ++ rest) = q_call P (fmt F e st ++ rest).
+  Proof.
+    intros Hp Hw Ho Hok Hfn. destruct (fmt_head e Hp Hw Ho st Hok Hfn) as [t [ts [E Hh]]]. rewrite E. cbn [app].
+    destruct t; try contradiction; reflexivity.
+  Qed.
 
   Definition not_rng_head (ts : list tok) : Prop := match ts with TRg _ _ :: _ => False | _ => True end.
 
   Lemma range_of_unary P ts x rest :
     p_unary T P ts = Some (x, rest) -> not_rng_head ts -> norange rest -> p_range T P ts = Some (x, rest).
   Proof.
-    intros H Hh Hn. unfold p_range. destruct ts as [|[a|s un|bl br|k|k| | | |n|n] r]; try contradiction; rewrite H;
-      (destruct rest as [|[a'|s' un'|bl' br'|k'|k'| | | |n'|n'] r']; try reflexivity; destruct bl'; [contradiction | reflexivity]).
+    intros H Hh Hn. unfold p_range. destruct ts as [|[a|s un|bl br|k|k| | | |n|n| | ] r]; try contradiction; rewrite H;
+      (destruct rest as [|[a'|s' un'|bl' br'|k'|k'| | | |n'|n'| | ] r']; try reflexivity; destruct bl'; [contradiction | reflexivity]).
   Qed.
 
   Lemma unary_of_term P ts x rest :
@@ -451,8 +515,8 @@ Section RoundTrip.
   Proof. intro Hp. rewrite fmt_eq. destruct e; try reflexivity; discriminate Hp. Qed.
 
   Lemma kind_cases e : plain e = true ->
-    is_term e = true \/ is_un e = true \/ is_rng e = true \/ is_bin e = true \/ is_call e = true.
-  Proof. destruct e; cbn; intro; try discriminate; auto. Qed.
+    is_term e = true \/ is_un e = true \/ is_rng e = true \/ is_bin e = true \/ is_call e = true \/ is_func e = true.
+  Proof. destruct e; cbn; intro; try discriminate; auto 7. Qed.
 
   (* the unparenthesised text of a term / unary / range node, seen from the range level *)
   Lemma kb_range e ctx pos unb : goodb e -> N.max ctx (strength F e) = strength F e ->
@@ -469,47 +533,73 @@ Section RoundTrip.
   Qed.
 
   Lemma kb_bin e ctx pos unb : plain e = true -> goodb e -> N.max ctx (strength F e) = strength F e ->
-    is_call e = false ->
+    is_low e = false ->
     forall minp rest k f,
       (forall o l r, e = EBin o l r -> minp <= lbp T o) -> stop (kedge e) rest ->
       q_loop (par T f) minp e rest = Some k ->
       exists g, q_bin (par T g) minp (kind_fmt F e (ctx, pos, unb) ++ rest) = Some k.
   Proof.
     intros Hp G Hc Hnc minp rest k f Hm Hs Hloop.
-    destruct (kind_cases e Hp) as [Hk|[Hk|[Hk|[Hk|Hk]]]]; try (rewrite Hk in Hnc; discriminate).
+    destruct (kind_cases e Hp) as [Hk|[Hk|[Hk|[Hk|[Hk|Hk]]]]]; try (destruct e; discriminate).
     1-3: (destruct (kb_range e ctx pos unb G Hc ltac:(auto) rest (proj1 Hs)) as [g Hg];
           eexists; eapply bin_of_range; eassumption).
     destruct (G ctx pos unb Hc) as [_ [_ [_ [Gb _]]]]. exact (Gb Hk minp rest k f Hm Hs Hloop).
   Qed.
 
   Lemma kb_call e ctx pos unb : plain e = true -> goodb e -> N.max ctx (strength F e) = strength F e ->
+    is_func e = false ->
     forall rest, closes rest -> exists g, q_call (par T g) (kind_fmt F e (ctx, pos, unb) ++ rest) = Some (e, rest).
   Proof.
-    intros Hp G Hc rest Hcl.
+    intros Hp G Hc Hnf rest Hcl.
     destruct (is_call e) eqn:Ek.
-    - destruct (G ctx pos unb Hc) as [_ [_ [_ [_ Gc]]]]. exact (Gc Ek rest Hcl).
-    - destruct (kb_bin e ctx pos unb Hp G Hc Ek 0 rest (e, rest) 1) as [g Hg].
+    - destruct (G ctx pos unb Hc) as [_ [_ [_ [_ [Gc _]]]]]. exact (Gc Ek rest Hcl).
+    - destruct (kb_bin e ctx pos unb Hp G Hc ltac:(destruct e; try reflexivity; discriminate) 0 rest (e, rest) 1) as [g Hg].
       + intros; lia.
       + apply closes_stop; exact Hcl.
       + apply loop_closes; exact Hcl.
       + eexists. apply call_of_bin; [exact Hcl | apply plain_not_alias; exact Hp | eassumption].
   Qed.
 
+  (* the unparenthesised text at the head of a list element *)
+  Lemma kb_lc e ctx pos unb : plain e = true -> wf e = true -> ops_ok e = true -> goodb e ->
+    needs F (ctx, pos, unb) e = false ->
+    forall rest, closes rest -> exists g, p_lc (par T g) (kind_fmt F e (ctx, pos, unb) ++ rest) = Some (e, rest).
+  Proof.
+    intros Hp Hw Ho G EN rest Hcl.
+    assert (Hc : N.max ctx (strength F e) = strength F e) by (apply N.max_r; apply (ctx_le (ctx, pos, unb) e EN)).
+    destruct (is_func e) eqn:Ef.
+    - destruct (G ctx pos unb Hc) as [_ [_ [_ [_ [_ Gf]]]]]. exact (Gf Ef rest Hcl).
+    - destruct (kb_call e ctx pos unb Hp G Hc Ef rest Hcl) as [g Hg]. exists g.
+      pose proof (lc_call e (ctx, pos, unb) rest (par T g) (plain_operand e Hp) Hw Ho (okst_plain e _ Hp)
+                    ltac:(intro Hx; rewrite Hx in Ef; discriminate Ef)) as E.
+      rewrite (fmt_plain e _ Hp), EN in E. cbn [wrap inner_state] in E. rewrite E. exact Hg.
+  Qed.
+
   (* ---------------- a node in parentheses is a term *)
+  (* `(` ts `)` where ts is the head of a list element that does not begin with an alias *)
+  Lemma paren_of_lc g ts e rest :
+    match ts with TAlias _ :: _ | TClose _ :: _ | [] => False | _ => True end ->
+    p_lc (par T g) (ts ++ TClose GPipe :: rest) = Some (e, TClose GPipe :: rest) ->
+    q_term (par T (S (S g))) (TOpen GPipe :: ts ++ TClose GPipe :: rest) = Some (e, rest).
+  Proof.
+    intros Hh H. cbn [par step q_term q_items]. change (step T (par T g)) with (par T (S g)).
+    destruct ts as [|t ts']; [contradiction|]. cbn [app] in *.
+    destruct t; try contradiction; cbn [p_item p_nested]; fold (par T g); rewrite H; cbn [gkind_eqb]; reflexivity.
+  Qed.
+
+  Lemma head_not_alias unb t : head_ok' unb t -> match t with TAlias _ | TClose _ => False | _ => True end.
+  Proof. intros [H| ->]; [destruct t; try contradiction; exact I | exact I]. Qed.
+
   Lemma wrapped_term e pos : plain e = true -> wf e = true -> ops_ok e = true -> goodb e ->
     forall rest, exists g,
       q_term (par T g) (TOpen GPipe :: kind_fmt F e (0%N, pos, false) ++ TClose GPipe :: rest) = Some (e, rest).
   Proof.
     intros Hp Hw Ho G rest.
-    destruct (kb_call e 0%N pos false Hp G ltac:(apply N.max_r; lia) (TClose GPipe :: rest) I) as [g Hg].
-    destruct (fmt_head e (plain_operand e Hp) Hw Ho (0%N, pos, false) (okst_plain e _ Hp)) as [t [ts [E Hh]]].
-    rewrite (fmt_plain e _ Hp), (needs_reset e pos Hp Ho) in E. cbn [wrap inner_state] in E.
-    rewrite E in *. cbn [app] in *. exists (S (S g)).
-    cbn [par step q_term q_items]. change (step T (par T g)) with (par T (S g)).
-    destruct t as [a|s un|bl br|k|k| | | |n|n]; try contradiction;
-      cbn [p_item p_nested par step]; fold (par T g);
-      change (step T (par T g)) with (par T (S g)) in *;
-      (rewrite Hg; cbn [gkind_eqb]; reflexivity).
+    pose proof (needs_reset e pos Hp Ho) as EN.
+    destruct (kb_lc e 0%N pos false Hp Hw Ho G EN (TClose GPipe :: rest) I) as [g Hg].
+    destruct (fmt_head' e (plain_operand e Hp) Hw Ho (0%N, pos, false) (okst_plain e _ Hp)) as [t [ts [E Hh]]].
+    rewrite (fmt_plain e _ Hp), EN in E. cbn [wrap inner_state] in E.
+    exists (S (S g)). apply paren_of_lc; [|exact Hg]. rewrite E. exact (head_not_alias _ _ Hh).
   Qed.
 
   Lemma goodb_good e : plain e = true -> wf e = true -> ops_ok e = true -> goodb e -> good e.
@@ -527,7 +617,7 @@ Section RoundTrip.
       + intros _. exact U.
       + intros minp rest k f _ _ Hs Hloop. exact (B minp rest k f (proj1 Hs) Hloop).
       + intros _ rest Hcl. destruct (R rest (closes_norange rest Hcl)) as [g Hg].
-        eexists. apply call_of_bin; [exact Hcl | apply plain_not_alias; exact Hp |].
+        eexists. cbn [app p_lc]. apply call_of_bin; [exact Hcl | apply plain_not_alias; exact Hp |].
         eapply bin_of_range; [exact Hg | apply (loop_closes 0); exact Hcl].
     - (* as is *)
       assert (Hc : N.max ctx (strength F e) = strength F e).
@@ -541,7 +631,7 @@ Section RoundTrip.
       + intros minp rest k f Hnc Hm Hs Hloop.
         apply (kb_bin e ctx pos unb Hp G Hc (Hnc eq_refl) minp rest k f (Hm eq_refl)); [|exact Hloop].
         unfold edge in Hs. destruct e; try exact Hs. rewrite EN in Hs. exact Hs.
-      + intros _ rest Hcl. apply kb_call; assumption.
+      + intros _ rest Hcl. apply kb_lc; assumption.
   Qed.
 
   (* ---------------- an aliased expression above alias_ctx: `(n = x)` is a term *)
@@ -570,13 +660,8 @@ Section RoundTrip.
     intros Hp Hw Ho Gx rest.
     destruct (Gx st (okst_plain x _ Hp)) as [_ [_ [_ Gc]]].
     destruct (Gc (plain_not_alias x Hp) (TClose GPipe :: rest) I) as [g Hg].
-    destruct (fmt_head x (plain_operand x Hp) Hw Ho st (okst_plain x _ Hp)) as [t [ts [E Hh]]].
-    rewrite E in *. cbn [app] in *. exists (S (S g)).
-    cbn [par step q_term q_items]. change (step T (par T g)) with (par T (S g)).
-    destruct t as [a|s un|bl br|k|k| | | |n|n]; try contradiction;
-      cbn [p_item p_nested par step]; fold (par T g);
-      change (step T (par T g)) with (par T (S g)) in *;
-      (rewrite Hg; cbn [gkind_eqb]; reflexivity).
+    destruct (fmt_head' x (plain_operand x Hp) Hw Ho st (okst_plain x _ Hp)) as [t [ts [E Hh]]].
+    exists (S (S g)). apply paren_of_lc; [|exact Hg]. rewrite E. exact (head_not_alias _ _ Hh).
   Qed.
 
   (* ---------------- which children end up in parentheses *)
@@ -606,7 +691,7 @@ Section RoundTrip.
     wrapped (bs_un F, pos, unb) x = true \/ is_term x = true.
   Proof.
     intros Hp Ho. unfold wrapped.
-    destruct x as [a|o l r|u y|l r|l|r| |f args|k es|n y|n y]; try discriminate Hp; cbn [is_term is_alias orb]; auto; left.
+    destruct x as [a|o l r|u y|l r|l|r| |f args|k es|n y|n y|ps ds b]; try discriminate Hp; cbn [is_term is_alias orb]; auto; left.
     - apply needs_lt. apply (H_bin_un C). apply (ops_bin _ _ _ Ho).
     - apply needs_eq_unspec; [reflexivity | apply N.le_refl].
     - apply needs_eq_unspec; [reflexivity | apply (H_rng_un C)].
@@ -614,6 +699,7 @@ Section RoundTrip.
     - apply needs_eq_unspec; [reflexivity | apply (H_rng_un C)].
     - apply needs_eq_unspec; [reflexivity | apply (H_rng_un C)].
     - apply needs_call. apply (H_call_un C).
+    - apply needs_lt. cbn [strength]. pose proof (H_func_call C). pose proof (H_call_un C). lia.
   Qed.
 
   (* bound of a range (written at position Unspecified): in parentheses unless it is a term or a unary operator *)
@@ -621,7 +707,7 @@ Section RoundTrip.
     wrapped (bs_rng F, PUnspec, unb) c = true \/ is_term c = true \/ is_un c = true.
   Proof.
     intros Hp Ho. unfold wrapped.
-    destruct c as [a|o l r|u y|l r|l|r| |f args|k es|n y|n y]; try discriminate Hp; cbn [is_term is_un is_alias orb]; auto; left.
+    destruct c as [a|o l r|u y|l r|l|r| |f args|k es|n y|n y|ps ds b]; try discriminate Hp; cbn [is_term is_un is_alias orb]; auto; left.
     - rewrite needs_bin. unfold Fmt.unwrapped_at. rewrite negb_involutive.
       pose proof (H_bin_rng C o (ops_bin _ _ _ Ho)) as Hle.
       destruct (N.ltb_spec (bs o) (bs_rng F)) as [|Hge]; [reflexivity|].
@@ -631,12 +717,14 @@ Section RoundTrip.
     - apply needs_eq_unspec; [reflexivity | apply N.le_refl].
     - apply needs_eq_unspec; [reflexivity | apply N.le_refl].
     - apply needs_call. apply (H_call_rng C).
+    - apply needs_lt. cbn [strength]. pose proof (H_func_call C). pose proof (H_call_rng C). lia.
   Qed.
 
-  Lemma call_wrapped c ctx pos unb : (bs_call F <= ctx)%N -> wrapped (ctx, pos, unb) c = false -> is_call c = false.
+  Lemma call_wrapped c ctx pos unb : (bs_call F <= ctx)%N -> wrapped (ctx, pos, unb) c = false -> is_low c = false.
   Proof.
-    intros Hle EN. destruct c; try reflexivity. unfold wrapped in EN. cbn [is_alias orb] in EN.
-    rewrite needs_call in EN; [discriminate | exact Hle].
+    intros Hle EN. destruct c; try reflexivity; unfold wrapped in EN; cbn [is_alias orb] in EN.
+    - rewrite needs_call in EN; [discriminate | exact Hle].
+    - rewrite func_wrapped in EN; [discriminate | exact Hle | reflexivity].
   Qed.
 
   (* ---------------- list elements (tuple items, pipeline elements, arguments) *)
@@ -656,17 +744,17 @@ Section RoundTrip.
     exists g, p_nested (par T g) ok (fmt F a (0%N, pos, false) ++ rest) = Some (a, rest).
   Proof.
     intros Hw Ho Hn Hal G rest Hcl.
-    destruct a as [a0|o l r|u x|l r|l|r| |f args|k es|n x|n x]; try discriminate Hn.
+    destruct a as [a0|o l r|u x|l r|l|r| |f args|k es|n x|n x|ps ds b]; try discriminate Hn.
     10: { (* alias, bare: nothing is below context strength 0 *)
       cbn [wf ops_ok elem_good] in *. bsplit.
       destruct (G (0%N, pos, false) (okst_plain x _ ltac:(assumption))) as [_ [_ [_ Gc]]].
       destruct (Gc (plain_not_alias x ltac:(assumption)) rest Hcl) as [g Hg].
       exists g. rewrite fmt_alias_lo by apply N.le_0_l. cbn [app p_nested]. rewrite (Hal eq_refl). rewrite Hg. reflexivity. }
     all: (lazymatch goal with |- context [fmt F ?e (0%N, _, false)] =>
-            destruct (fmt_head e eq_refl Hw Ho (0%N, pos, false) (okst_plain e _ eq_refl)) as [t [ts [E Hh]]];
+            destruct (fmt_head' e eq_refl Hw Ho (0%N, pos, false) (okst_plain e _ eq_refl)) as [t [ts [E Hh]]];
             destruct (G (0%N, pos, false) (okst_plain e _ eq_refl)) as [_ [_ [_ Gc]]] end;
           destruct (Gc eq_refl rest Hcl) as [g Hg];
-          exists g; rewrite E in *; cbn [app] in *;
+          exists g; rewrite E in *; cbn [app] in *; apply head_not_alias in Hh;
           destruct t; try contradiction; cbn [p_nested]; exact Hg).
   Qed.
 
@@ -674,7 +762,8 @@ Section RoundTrip.
     exists t ts, fmt F a st = t :: ts /\ not_close t.
   Proof.
     intros Hw Ho. destruct (plain a) eqn:Hp.
-    - destruct (fmt_head a (plain_operand a Hp) Hw Ho st (okst_plain a _ Hp)) as [t [ts [E Hh]]]. exists t, ts. split; [exact E|]. destruct t; try contradiction; exact I.
+    - destruct (fmt_head' a (plain_operand a Hp) Hw Ho st (okst_plain a _ Hp)) as [t [ts [E Hh]]]. exists t, ts. split; [exact E|].
+      apply head_not_alias in Hh. destruct t; try contradiction; exact I.
     - destruct st as [[ctx pos] unb]. destruct a; try discriminate Hp; rewrite fmt_eq.
       + destruct (alias_ctx F <? ctx)%N; eexists _, _; split; try reflexivity; exact I.
       + eexists _, _; split; try reflexivity; exact I.
@@ -732,6 +821,10 @@ Section RoundTrip.
           (destruct k; try discriminate Hk; cbn [p_item sep_of is_sep] in *; rewrite Hg1'; cbn [is_sep]; rewrite Hg2'; reflexivity).
   Qed.
 
+  (* a lambda as a case branch is in parentheses *)
+  Lemma func_case c pos : is_func c = true -> needs F (case_ctx F, pos, false) c = true.
+  Proof. intro Hf. destruct c; try discriminate Hf. apply needs_lt. cbn [strength]. apply (H_func_case C). Qed.
+
   (* case [c1 => v1, c2 => v2, ...] : the flattened list has even length *)
   Lemma items_case pos rest :
     forall n es i, length es = 2 * n -> Nat.even i = true ->
@@ -747,7 +840,13 @@ Section RoundTrip.
       pose proof (elem_plain c ltac:(assumption) Gc) as Gc'. pose proof (elem_plain v ltac:(assumption) Gv) as Gv'.
       set (cc := case_ctx F) in *.
       assert (Hpc : plain c = true) by assumption. assert (Hpv : plain v = true) by assumption.
-      destruct (fmt_head c (plain_operand c Hpc) ltac:(assumption) ltac:(assumption) (cc, pos, false) (okst_plain c _ Hpc)) as [t0 [ts0 [E0 Hh0]]].
+      assert (Hwc : wf c = true) by assumption. assert (Hwv : wf v = true) by assumption.
+      assert (Hoc : ops_ok c = true) by assumption. assert (Hov : ops_ok v = true) by assumption.
+      destruct (fmt_head c (plain_operand c Hpc) Hwc Hoc (cc, pos, false) (okst_plain c _ Hpc) (func_case c pos)) as [t0 [ts0 [E0 Hh0]]].
+      assert (LCc : forall rest' P, p_lc P (fmt F c (cc, pos, false) ++ rest') = q_call P (fmt F c (cc, pos, false) ++ rest')).
+      { intros rest' P. apply lc_call; try assumption; [apply plain_operand; exact Hpc | apply okst_plain; exact Hpc | apply func_case]. }
+      assert (LCv : forall rest' P, p_lc P (fmt F v (cc, pos, false) ++ rest') = q_call P (fmt F v (cc, pos, false) ++ rest')).
+      { intros rest' P. apply lc_call; try assumption; [apply plain_operand; exact Hpv | apply okst_plain; exact Hpv | apply func_case]. }
       assert (Hsep : sep_of GCase i = TArrow) by (cbn [sep_of]; rewrite Hi; reflexivity).
       assert (Hsep2 : sep_of GCase (S i) = TComma).
       { cbn [sep_of]. rewrite Nat.even_succ. rewrite <- Nat.negb_even, Hi. reflexivity. }
@@ -755,9 +854,9 @@ Section RoundTrip.
       destruct t as [|c2 t2].
       + (* last pair *)
         destruct (Gv' (cc, pos, false) (okst_plain v _ Hpv)) as [_ [_ [_ Gvc]]].
-        destruct (Gvc (plain_not_alias v Hpv) (TClose GCase :: rest) I) as [g2 Hg2].
+        destruct (Gvc (plain_not_alias v Hpv) (TClose GCase :: rest) I) as [g2 Hg2]. rewrite LCv in Hg2.
         destruct (Gc' (cc, pos, false) (okst_plain c _ Hpc)) as [_ [_ [_ Gcc]]].
-        destruct (Gcc (plain_not_alias c Hpc) (TArrow :: fmt F v (cc, pos, false) ++ TClose GCase :: rest) I) as [g1 Hg1].
+        destruct (Gcc (plain_not_alias c Hpc) (TArrow :: fmt F v (cc, pos, false) ++ TClose GCase :: rest) I) as [g1 Hg1]. rewrite LCc in Hg1.
         exists (S (g1 + g2)).
         change (fmt_items F GCase pos [c; v] i) with (fmt F c (cc, pos, false) ++ sep_of GCase i :: fmt F v (cc, pos, false)).
         rewrite Hsep. rewrite <- app_assoc. cbn [app]. rewrite E0 in *. cbn [app] in *.
@@ -766,9 +865,9 @@ Section RoundTrip.
       + assert (Hlen' : length (c2 :: t2) = 2 * n) by (cbn [length] in *; lia).
         destruct (IH (c2 :: t2) (S (S i)) Hlen' Hi2 Gt ltac:(assumption) ltac:(assumption) ltac:(assumption)) as [g3 Hg3].
         destruct (Gv' (cc, pos, false) (okst_plain v _ Hpv)) as [_ [_ [_ Gvc]]].
-        destruct (Gvc (plain_not_alias v Hpv) (TComma :: fmt_items F GCase pos (c2 :: t2) (S (S i)) ++ TClose GCase :: rest) I) as [g2 Hg2].
+        destruct (Gvc (plain_not_alias v Hpv) (TComma :: fmt_items F GCase pos (c2 :: t2) (S (S i)) ++ TClose GCase :: rest) I) as [g2 Hg2]. rewrite LCv in Hg2.
         destruct (Gc' (cc, pos, false) (okst_plain c _ Hpc)) as [_ [_ [_ Gcc]]].
-        destruct (Gcc (plain_not_alias c Hpc) (TArrow :: fmt F v (cc, pos, false) ++ TComma :: fmt_items F GCase pos (c2 :: t2) (S (S i)) ++ TClose GCase :: rest) I) as [g1 Hg1].
+        destruct (Gcc (plain_not_alias c Hpc) (TArrow :: fmt F v (cc, pos, false) ++ TComma :: fmt_items F GCase pos (c2 :: t2) (S (S i)) ++ TClose GCase :: rest) I) as [g1 Hg1]. rewrite LCc in Hg1.
         exists (S (g1 + g2 + g3)).
         change (fmt_items F GCase pos (c :: v :: c2 :: t2) i) with
           (fmt F c (cc, pos, false) ++ sep_of GCase i :: (fmt F v (cc, pos, false) ++ sep_of GCase (S i) :: fmt_items F GCase pos (c2 :: t2) (S (S i)))).
@@ -788,7 +887,8 @@ Section RoundTrip.
     intros Hcl Hw Ho p. destruct t as [|b t']; [apply closes_stop; exact Hcl|].
     cbn [forallb] in Hw, Ho. bsplit. rewrite fmt_args_cons.
     destruct (plain b) eqn:Hp.
-    - destruct (fmt_head b (plain_operand b Hp) ltac:(assumption) ltac:(assumption) (bs_call F, pos, true) (okst_plain b _ Hp)) as [t0 [ts0 [E Hh]]].
+    - destruct (fmt_head b (plain_operand b Hp) ltac:(assumption) ltac:(assumption) (bs_call F, pos, true) (okst_plain b _ Hp)
+                  (func_wrapped _ _ _ b (N.le_refl _))) as [t0 [ts0 [E Hh]]].
       rewrite E. cbn [app]. cbn [snd] in Hh. destruct t0; try contradiction; cbn [head_ok] in Hh; split; try exact I.
       + destruct Hh as [_ Hh]. rewrite (Hh eq_refl). exact I.
       + subst. exact I.
@@ -816,7 +916,7 @@ Section RoundTrip.
         - intros; lia.
         - apply Hstop.
         - apply loop_stop. apply Hstop. }
-      destruct a as [a0|o l r|u x|l r|l|r| |f args|k es|n x|n x].
+      destruct a as [a0|o l r|u x|l r|l|r| |f args|k es|n x|n x|ps ds b].
       10: { (* positional argument with an alias: bare at the strength of a call *)
             cbn [wf ops_ok elem_good] in *. bsplit.
             assert (Hpx : plain x = true) by assumption.
@@ -835,7 +935,8 @@ Section RoundTrip.
             rewrite (up_bin g1 (g1 + g2) _ _ _ ltac:(lia) Hg1), (up_args g2 (g1 + g2) _ _ ltac:(lia) Hg2). reflexivity. }
       all: (lazymatch goal with |- context [fmt F ?e (bs_call F, _, true)] =>
               destruct (Hx e (bs_call F) true Ga (N.le_refl _) (okst_plain e _ eq_refl)) as [g1 Hg1];
-              destruct (fmt_head e eq_refl ltac:(assumption) ltac:(assumption) (bs_call F, pos, true) (okst_plain e _ eq_refl)) as [t0 [ts0 [E Hh]]] end;
+              destruct (fmt_head e eq_refl ltac:(assumption) ltac:(assumption) (bs_call F, pos, true) (okst_plain e _ eq_refl)
+                          (func_wrapped _ _ _ e (N.le_refl _))) as [t0 [ts0 [E Hh]]] end;
             exists (S (g1 + g2)); rewrite E in *; cbn [app] in *; cbn [par step q_args]; cbn [snd] in Hh;
             pose proof (up_bin g1 (g1 + g2) _ _ _ ltac:(lia) Hg1) as Hg1'; pose proof (up_args g2 (g1 + g2) _ _ ltac:(lia) Hg2) as Hg2';
             destruct t0; try contradiction; cbn [starts_arg head_ok] in *;
@@ -873,9 +974,9 @@ Section RoundTrip.
     stop (Some (rbp T o)) rest -> stop (edge st c) rest.
   Proof.
     intros Ho Hoc Hr [Hn Hs]. split; [exact Hn|]. unfold edge.
-    destruct rest as [|[a|s un|bl br|k|k| | | |n|n] rest']; try exact I.
+    destruct rest as [|[a|s un|bl br|k|k| | | |n|n| | ] rest']; try exact I.
     destruct (bin_of_sym T s) as [o'|]; [|exact I]. destruct Hs as [Ho' Hlt].
-    destruct c as [a0|o2 l2 r2|u x|l r|l|r| |f args|k es|n x|n x]; try exact I.
+    destruct c as [a0|o2 l2 r2|u x|l r|l|r| |f args|k es|n x|n x|ps ds b]; try exact I.
     destruct (needs F st (EBin o2 l2 r2)) eqn:EN; [exact I|]. split; [exact Ho'|].
     apply (H_edge C); [apply (ops_bin _ _ _ Hoc) | exact Ho' |]. specialize (Hr o2 l2 r2 eq_refl eq_refl). lia.
   Qed.
@@ -898,7 +999,7 @@ Section RoundTrip.
     - (* the expression as it is *)
       split.
       + destruct (Gl (bs_rng F, PUnspec, unb) Hok) as [_ [GlU _]]. exact (GlU (rng_child l unb Hp Ho)).
-      + destruct (fmt_head l Hp Hw Ho (bs_rng F, PUnspec, unb) Hok) as [t0 [ts0 [E0 Hh]]].
+      + destruct (fmt_head l Hp Hw Ho (bs_rng F, PUnspec, unb) Hok (func_wrapped _ _ _ l (H_call_rng C))) as [t0 [ts0 [E0 Hh]]].
         exists t0, ts0. split; [exact E0|].
         destruct (rng_child l unb Hp Ho) as [Hn|[Hn|Hn]].
         * destruct (operand_cases l Hp) as [Hpl|[n [x ->]]].
@@ -917,9 +1018,50 @@ Section RoundTrip.
       exists g. cbn [app]. rewrite <- app_assoc. cbn [app p_unary]. rewrite (H_un_sym C u Hu). rewrite Hg. reflexivity.
   Qed.
 
+  (* ---------------- the header of a lambda: parameter names, then `k:default` entries, up to `->` *)
+  Lemma params_names ps : forall g X (ds : list expr) (r : list tok), q_params (par T g) X = Some ((@nil str, ds), r) ->
+    q_params (par T (length ps + g)) (map (fun p => TA (APar p)) ps ++ X) = Some ((ps, ds), r).
+  Proof.
+    induction ps as [|p t IH]; intros g X ds r H; [exact H|].
+    cbn [length map app Nat.add par step q_params]. fold (par T (length t + g)).
+    rewrite (IH g X ds r H). reflexivity.
+  Qed.
+
+  Lemma stop_header p rest : match rest with (TNamed _ | TThin) :: _ => True | _ => False end -> stop p rest.
+  Proof. destruct rest as [|[] ?]; cbn; intro H; try contradiction; split; exact I. Qed.
+
+  Lemma fmt_defaults_cons c unb k x t :
+    fmt_defaults F c unb (ENamed k x :: t) = TNamed k :: fmt F x (c, PUnspec, unb) ++ fmt_defaults F c unb t.
+  Proof. reflexivity. Qed.
+
+  Lemma defaults_parse c unb Y : (bs_call F <= c)%N -> (alias_ctx F < c)%N ->
+    forall ds, Forall elem_good ds -> forallb is_named ds = true -> forallb wf ds = true -> forallb ops_ok ds = true ->
+    exists g, q_params (par T g) (fmt_defaults F c unb ds ++ TThin :: Y) = Some ((@nil str, ds), TThin :: Y).
+  Proof.
+    intros Hcc Hac. induction ds as [|d t IH]; intros HG Hn Hw Ho.
+    - exists 1. reflexivity.
+    - inversion HG as [|? ? Gd Gt]; subst. cbn [forallb] in Hn, Hw, Ho. bsplit.
+      destruct (IH Gt ltac:(assumption) ltac:(assumption) ltac:(assumption)) as [g2 Hg2].
+      destruct d as [a0|o l r|u x|l r|l|r| |f args|k es|n x|n x|ps0 ds0 b0]; try discriminate.
+      cbn [elem_good wf ops_ok] in *. bsplit.
+      rewrite fmt_defaults_cons. cbn [app]. rewrite <- app_assoc.
+      set (rest1 := fmt_defaults F c unb t ++ TThin :: Y) in *.
+      assert (Hst : forall p, stop p rest1).
+      { intro p. apply stop_header. unfold rest1. destruct t as [|d2 t2]; [exact I|].
+        cbn [forallb] in *. bsplit. destruct d2; try discriminate. rewrite fmt_defaults_cons. exact I. }
+      destruct (Gd (c, PUnspec, unb) ltac:(apply okst_lt; exact Hac)) as [_ [_ [Gb _]]].
+      destruct (Gb 0 rest1 (x, rest1) 1) as [g1 Hg1].
+      { apply call_wrapped. exact Hcc. }
+      { intros; lia. }
+      { apply Hst. }
+      { apply loop_stop. apply Hst. }
+      exists (S (g1 + g2)). cbn [par step q_params].
+      rewrite (up_bin g1 (g1 + g2) _ _ _ ltac:(lia) Hg1), (up_params g2 (g1 + g2) _ _ ltac:(lia) Hg2). reflexivity.
+  Qed.
+
   Theorem all_good e : Pgood e.
   Proof.
-    induction e as [a|o l r IHl IHr|u x IHx|l r IHl IHr|l IHl|r IHr| |f args IHf IHargs|k es IHes|n x IHx|n x IHx] using expr_ind2;
+    induction e as [a|o l r IHl IHr|u x IHx|l r IHl IHr|l IHl|r IHr| |f args IHf IHargs|k es IHes|n x IHx|n x IHx|ps ds b IHds IHb] using expr_ind2;
       intros Hw Ho; cbn [elem_good].
     10: { (* alias *)
       cbn [wf ops_ok] in Hw, Ho. bsplit.
@@ -966,7 +1108,7 @@ Section RoundTrip.
         pose proof (H_left C o o2 Hob (ops_bin o2 l2 r2 ltac:(assumption)) EN).
         pose proof (H_adj C o2 (ops_bin o2 l2 r2 ltac:(assumption))). lia.
       + split; [exact I|]. rewrite (H_bin_sym C o Hob). unfold edge.
-        destruct l as [a0|o2 l2 r2|u x|l1 r1|l1|r1| |f1 args1|k1 es1|n x|n x]; try exact I.
+        destruct l as [a0|o2 l2 r2|u x|l1 r1|l1|r1| |f1 args1|k1 es1|n x|n x|ps ds b]; try exact I.
         destruct (needs F (bs o, PLeft, unb) (EBin o2 l2 r2)) eqn:EN; [exact I|].
         split; [exact Hob|]. rewrite needs_bin in EN. apply negb_false_iff in EN.
         apply (H_left C); [exact Hob | apply (ops_bin o2 l2 r2); assumption | exact EN].
@@ -1060,6 +1202,29 @@ Section RoundTrip.
       destruct HI as [g Hg]. exists (S g). cbn [par step q_term]. rewrite Hg.
       destruct k; try reflexivity. destruct es as [|a [|b t]]; try reflexivity.
       bsplit. match goal with H : (2 <=? length [a]) = true |- _ => discriminate H end.
+    - (* lambda *)
+      pose proof Hw as Hw0. pose proof Ho as Ho0. cbn [wf ops_ok] in Hw, Ho. rewrite go_forall in Hw, Ho. bsplit.
+      assert (Hpb : plain b = true) by assumption.
+      pose proof (pgood_operand b IHb (plain_operand b Hpb) ltac:(assumption) ltac:(assumption)) as Gb.
+      pose proof (forall_elem ds IHds ltac:(assumption) ltac:(assumption)) as Gds.
+      apply goodb_good; try assumption; try reflexivity.
+      intros ctx pos unb Hc. cbn [strength] in Hc.
+      repeat split; try (intro; discriminate).
+      intros _ rest Hcl. cbn [kind_fmt app p_lc]. repeat rewrite <- app_assoc. cbn [app].
+      set (cd := N.max ctx (default_ctx F)). set (cb := N.max ctx (body_ctx F)).
+      (* the body *)
+      destruct (Gb (cb, PUnspec, unb) (okst_plain b _ Hpb)) as [_ [_ [_ Gbc]]].
+      destruct (Gbc (plain_not_alias b Hpb) rest Hcl) as [g3 Hg3].
+      rewrite (lc_call b (cb, PUnspec, unb) rest (par T g3) (plain_operand b Hpb) ltac:(assumption) ltac:(assumption) (okst_plain b _ Hpb)) in Hg3.
+      2: { intro Hf. destruct b; try discriminate Hf. apply needs_lt. cbn [strength]. pose proof (H_func_body C). unfold cb. lia. }
+      (* the header *)
+      destruct (defaults_parse cd unb (fmt F b (cb, PUnspec, unb) ++ rest)
+                  ltac:(pose proof (H_call_default C); unfold cd; lia) ltac:(pose proof (H_alias_default C); unfold cd; lia)
+                  ds Gds ltac:(assumption) ltac:(assumption) ltac:(assumption)) as [g2 Hg2].
+      pose proof (params_names ps g2 _ _ _ Hg2) as Hg1.
+      exists (S (length ps + g2 + g3)). cbn [par step q_lam].
+      rewrite (up_params (length ps + g2) (length ps + g2 + g3) _ _ ltac:(lia) Hg1).
+      rewrite (up_call g3 (length ps + g2 + g3) _ _ ltac:(lia) Hg3). reflexivity.
   Qed.
 
   (* ---------------- the theorem *)
@@ -1070,6 +1235,24 @@ Section RoundTrip.
     destruct (nested_elem e true PUnspec Hw Ho Hn (fun _ => eq_refl) (proj1 (all_good e Hw Ho)) [] I) as [g Hg].
     rewrite app_nil_r in Hg. exists g. intros f Hle. unfold parse, fmt_top, st0.
     rewrite (p_nested_mono _ _ (par_le T g f Hle) _ _ _ Hg). reflexivity.
+  Qed.
+
+  (* an expression written where the parser reads `expr()` (an annotation), at any context strength that
+     parenthesises calls and aliased expressions *)
+  Theorem roundtrip_expr_at c e : (bs_call F <= c)%N -> (alias_ctx F < c)%N ->
+    wf e = true -> ops_ok e = true -> is_named e = false ->
+    exists f0, forall f, f0 <= f -> parse_expr T f (fmt F e (c, PUnspec, false)) = Some e.
+  Proof.
+    intros Hc Ha Hw Ho Hn.
+    destruct (all_good e Hw Ho) as [_ G]. specialize (G Hn).
+    destruct (G (c, PUnspec, false) ltac:(apply okst_lt; exact Ha)) as [_ [_ [Gb _]]].
+    destruct (Gb 0 [] (e, []) 1) as [g Hg].
+    - apply call_wrapped. exact Hc.
+    - intros; lia.
+    - apply closes_stop. exact I.
+    - apply loop_closes. exact I.
+    - rewrite app_nil_r in Hg. exists g. intros f Hle. unfold parse_expr.
+      rewrite (up_bin g f _ _ _ Hle Hg). reflexivity.
   Qed.
 
   Corollary idempotent e : wf e = true -> ops_ok e = true -> is_named e = false ->
@@ -1090,6 +1273,12 @@ Qed.
 Lemma compat_sound F T nb nu : compat F T nb nu = true -> compat_facts F T nb nu.
 Proof.
   unfold compat. intro H.
+  apply andb_true_iff in H as [H Cad].
+  apply andb_true_iff in H as [H Ccd].
+  apply andb_true_iff in H as [H Cfb].
+  apply andb_true_iff in H as [H Cfs].
+  apply andb_true_iff in H as [H Cfc].
+  apply andb_true_iff in H as [H Cfp].
   apply andb_true_iff in H as [H Cac].
   apply andb_true_iff in H as [H Can].
   apply andb_true_iff in H as [H Car].
@@ -1140,4 +1329,10 @@ Proof.
   - apply N.ltb_lt; exact Car.
   - apply N.ltb_lt; exact Can.
   - apply N.leb_le; exact Cac.
+  - apply N.ltb_lt; exact Cfp.
+  - apply N.ltb_lt; exact Cfc.
+  - apply N.ltb_lt; exact Cfs.
+  - apply N.ltb_lt; exact Cfb.
+  - apply N.leb_le; exact Ccd.
+  - apply N.ltb_lt; exact Cad.
 Qed.
